@@ -165,7 +165,8 @@ def _generate(family, rng, tier, wb_err=False, up_pipelined=False, lite_pipeline
         else:
             scn["lat"] = [rng.choice([1, 1, 2, 5]) for _ in range(8)]
     elif family == "axil2axi":
-        scn["ops"] = gen_axil_ops(rng, n, 4, lambda r: 0x30 + r.randrange(8))
+        p["err"] = rng.random() < 0.4       # the AXI slave answers SLVERR above byte address 0x400
+        scn["ops"] = gen_axil_ops(rng, n, 4, lambda r: 0x30 + r.randrange(8) + (0x100 if (p["err"] and r.random() < 0.15) else 0))
         scn["slave"] = slave_cfg(rng)
     elif family == "wb2axi":
         ops = []
@@ -173,6 +174,11 @@ def _generate(family, rng, tier, wb_err=False, up_pipelined=False, lite_pipeline
             gap = rng.choice([0, 0, 1, 3])
             ops.append({"we": int(rng.random() < 0.5), "adr": 0x50 + rng.randrange(8), "dat": rng.getrandbits(32),
                         "sel": rng.choice([15, 15, 3, 5, 8]), "gap": gap, "keep_cyc": 0})
+        p["err"] = rng.random() < 0.4       # the AXI slave answers SLVERR above byte address 0x400
+        if p["err"]:
+            for o_ in ops:
+                if rng.random() < 0.15:
+                    o_["adr"] += 0x100
         scn["ops"] = ops
         scn["slave"] = slave_cfg(rng)
     elif family == "ahb2wb":
